@@ -72,7 +72,7 @@ Definition state_spec_ok (bl : list blobrow) (msgs : list (list partrow)) : bool
                        end) rows.
 
 Definition fcode (f : option finding) : nat :=
-  match f with None => 0 | Some DedupEncoding => 1 end.
+  match f with None => 0 | Some EmptyPartS3Blob => 1 end.
 
 (** the executable spec of one read (Spec/BlobSpec.v spec_read_ok, restated
     here so that this file has no dependency on Spec) *)
